@@ -4,6 +4,7 @@ go 1.26.8
 
 require (
 	github.com/jwhited/corebgp v0.0.0
+	github.com/anishathalye/porcupine v1.3.0
 	pgregory.net/rapid v1.3.0
 )
 
